@@ -214,14 +214,17 @@ CHECKS = {
              "C12_keeps_last, C12_count (count between T/(0.9res+dmax) and T/(0.9res)+1), C12_sampling (sample step between "
              "res/10 and res/9 of length when L >= res), C12_const_speed (no segment longer than 91/90 res for samples at most "
              "L/n apart), C12_halving (halving never yields fewer segments whenever the finer sampled polyline satisfies "
-             "T1(0.45res+dmax2) < 0.9res T2). Tie: filter and sample count exercised through the public trace.parametric on dyadic "
+             "T1(0.45res+dmax2) < 0.9res T2); over R: C12_chord (an arc of length s <= 2r has chord in [s(1 - s^2/24r^2), s]) and "
+             "C12_sagitta (chord error <= s^2/8r). Tie: filter and sample count exercised through the public trace.parametric on dyadic "
              "curves and compared with the model evaluated in Coq; the property's bounds checked on real arcs / arc_radius / "
              "circles / constant-radius helices / threads over four decades of L/res, both unit systems, with halving chains for "
              "every shape.",
         note=TB + "Partial: binary64 rounding in the filter is not modelled (exact on the correspondence inputs, 1e-7 margins "
                   "in the shape oracle); 'length' is travelled length along the samples, related to chord length by the oracle's "
-                  "geometry, not by a theorem; the hypothesis of C12_halving is not proved for splines/spirals (oracle search "
-                  "only). No axioms.",
+                  "geometry for helices (C12_chord / C12_sagitta are for circles); the hypothesis of C12_halving is not proved for "
+                  "splines/spirals (oracle search only). Axioms: none for the filter theorems; C12_chord / C12_sagitta depend on "
+                  "the standard library's real-number axioms (ClassicalDedekindReals.sig_not_dec, sig_forall_dec, "
+                  "FunctionalExtensionality.functional_extensionality_dep, Classical_Prop.classic).",
         technique="Rocq proofs over Q (induction on the sample list, lra/nra) + correspondence (vm_compute) + geometric oracle on the code",
         ref="§C12"),
     "C10": dict(
@@ -248,7 +251,8 @@ CHECKS = {
              "C19_raster_line (Bresenham model of skimage.draw.line: max(|dr|,|dc|)+1 pixels, exact ends, one major-axis step per "
              "pixel, within half a pixel of the ideal line), C19_raster_outside / _pixel_centre (range test, (y,x) order, scale; "
              "pixel-centre exactness under the hypothesis that the spline reproduces the grid), C19_sparse_range / _vertex "
-             "(barycentric interpolation on a given triangulation: [min,max] inside, 0 outside, stored height at a vertex). Tie: "
+             "(barycentric interpolation on a given triangulation: [min,max] inside, 0 outside, stored height at a vertex), "
+             "C19_raster_path / C19_sparse_path (sample_path as a whole: ends, in-order selection, own height everywhere). Tie: "
              "draw_line == skimage.draw.line and py_round == round exactly, raster_depth / sparse_depth (scipy's simplices) / linspace "
              "within 1e-9, filter_points == sample_path output exactly; oracle on real maps for every clause of the statement.",
         note=TB + "Partial: scipy RectBivariateSpline and Delaunay/LinearNDInterpolator are hypotheses/inputs of the theorems "
@@ -262,7 +266,8 @@ CHECKS = {
              "Proved: C15_safety (accepted log always a contiguous in-order duplicate-free slice of the job's commands, a prefix when the "
              "reset got through), C15_numbering (line numbers = commands sent, stored lines and good frames carry (k, command k)), "
              "C15_resend (a resend request restarts transmission at the requested stored line), C15_complete_clean (clean link, any "
-             "latency: at quiescence the whole job is accepted), C15_xor_detects_single. Completeness under corruption is REFUTED for "
+             "latency: at quiescence the whole job is accepted), C15_xor_detects_single, C15_frame_roundtrip (the firmware reads back "
+             "(k, command, checksum ok) from frame_bytes k command, for every k and command text). Completeness under corruption is REFUTED for "
              "the faithful model: C15_refuted_tail, C15_refuted_m110 = the two recorded findings. Tie: the real printcore streams "
              "jobs to a fake serial firmware; every observed wire trace must be a run of the model (check_trace in Coq) with the same "
              "accepted log; frame_bytes == wire bytes; oracle: frames well-formed, job accepted exactly once in order.",
